@@ -280,7 +280,7 @@ def qualifier_to_xml(obj: model.Qualifier, tag: str = NS_AAS+"qualifier") -> etr
     et_qualifier.append(_generate_element(NS_AAS + "kind", text=_generic.QUALIFIER_KIND[obj.kind]))
     et_qualifier.append(_generate_element(NS_AAS + "type", text=obj.type))
     et_qualifier.append(_generate_element(NS_AAS + "valueType", text=model.datatypes.XSD_TYPE_NAMES[obj.value_type]))
-    if obj.value:
+    if obj.value is not None:
         et_qualifier.append(_value_to_xml(obj.value, obj.value_type))
     if obj.value_id:
         et_qualifier.append(reference_to_xml(obj.value_id, NS_AAS+"valueId"))
@@ -300,7 +300,7 @@ def extension_to_xml(obj: model.Extension, tag: str = NS_AAS+"extension") -> etr
     if obj.value_type:
         et_extension.append(_generate_element(NS_AAS + "valueType",
                                               text=model.datatypes.XSD_TYPE_NAMES[obj.value_type]))
-    if obj.value:
+    if obj.value is not None:
         et_extension.append(_value_to_xml(obj.value, obj.value_type))  # type: ignore # (value_type could be None)
     if len(obj.refers_to) > 0:
         refers_to = _generate_element(NS_AAS+"refersTo")
@@ -623,10 +623,8 @@ def blob_to_xml(obj: model.Blob,
     :return: Serialized :class:`~lxml.etree._Element` object
     """
     et_blob = abstract_classes_to_xml(tag, obj)
-    et_value = etree.Element(NS_AAS + "value")
     if obj.value is not None:
-        et_value.text = base64.b64encode(obj.value).decode()
-    et_blob.append(et_value)
+        et_blob.append(_generate_element(NS_AAS + "value", text=base64.b64encode(obj.value).decode()))
     et_blob.append(_generate_element(NS_AAS + "contentType", text=obj.content_type))
     return et_blob
 
